@@ -82,7 +82,10 @@ def gen_exhaustive(ctx, cases):
     syms = [("U", i) for i in range(4)] + [("X", i) for i in range(4)]
     call = {"op": "C", "toks": [1]}
     for n, (name, node, pool) in enumerate(EXHAUSTIVE_FLAVOURS):
-        maxlen = 6 if (ctx.tier != "quick" and n in (0, 2, 3, 5, 7)) else 5
+        if ctx.tier == "quick":
+            maxlen = 5 if n in (0, 2, 3, 5, 7) else 4       # thorough: 5 for all, 6 for these five
+        else:
+            maxlen = 6 if n in (0, 2, 3, 5, 7) else 5
         opd = {sy: {"op": sy[0], "node": node, "ix": [sy[1]]} for sy in syms}     # shared, never mutated
         for L in range(0, maxlen + 1):
             for seq in itertools.product(syms, repeat=L):
@@ -119,7 +122,7 @@ def gen_pool(rng, n, guard, behaviours, with_bad):
     return pool
 
 
-def gen_ops(rng, pool, n_ops, nodes, allow_bad, ctxp=0.0):
+def gen_ops(rng, pool, n_ops, nodes, allow_bad, ctxp=0.0, mp=0.2, rp=0.0):
     valid = [i for i, e in enumerate(pool) if e["kind"] != "bad"]
     ops = []
     for _ in range(n_ops):
@@ -128,6 +131,12 @@ def gen_ops(rng, pool, n_ops, nodes, allow_bad, ctxp=0.0):
             op = {"op": "C", "toks": [rng.randrange(10) for _ in range(rng.choice([0, 1, 1, 2]))]}
             if rng.random() < ctxp:
                 op["ctx"] = rng.choice(["cancel", "deadline"])
+            if rng.random() < mp:
+                op["m"] = rng.choice(["fail", "boom"])
+            if rng.random() < rp:
+                op["cc"] = rng.choice([1, 1, 2])
+                if rng.random() < 0.5:
+                    op["ccm"] = "cc"
             ops.append(op)
             continue
         nargs = rng.choice([1, 1, 1, 2, 2, 3, 0])
@@ -190,6 +199,41 @@ def gen_ctx(ctx, cases, n):
         cases.append({"id": len(cases) + 1, "mode": "seq", "flavour": "ctx/random", "pool": pool, "ops": ops})
 
 
+def gen_errors_and_reuse(ctx, cases, n):
+    """(a) a call failing below the service IO layer (method error, method panic, an invoke handler
+    short-circuiting with an error) with IO handlers installed on both sides: what each handler
+    sees coming back; (b) one ClientContext / one context.Context reused for all the calls of a
+    history, with Use/Unuse between them."""
+    rng = ctx.rng
+    base = [E("fi", 0), E("fo", 0), E("fi", 1), E("fo", 1), E("fi", 2, "E"), E("t")]
+    for m in ("", "fail", "boom"):
+        for extra in ([], [{"op": "U", "node": "s", "ix": [4]}], [{"op": "U", "node": "c", "ix": [5]}, {"op": "U", "node": "s", "ix": [5]}]):
+            call = {"op": "C", "toks": [3]}
+            if m:
+                call["m"] = m
+            cases.append({"id": len(cases) + 1, "mode": "seq", "flavour": "errors/systematic", "pool": base,
+                          "ops": [{"op": "U", "node": "c", "ix": [0, 1]}, {"op": "U", "node": "s", "ix": [2, 3]}]
+                          + extra + [call, {"op": "C", "toks": [4]}]})
+    syms = [("U", i) for i in range(4)] + [("X", i) for i in range(4)]
+    for name, node, pool in (EXHAUSTIVE_FLAVOURS[0], EXHAUSTIVE_FLAVOURS[3], EXHAUSTIVE_FLAVOURS[2]):
+        for ccm in ("", "cc"):
+            for L in range(1, 4):
+                for seq in itertools.product(syms, repeat=L):
+                    ops = []
+                    for o, i in seq:
+                        ops.append({"op": o, "node": node, "ix": [i]})
+                        c_ = {"op": "C", "toks": [1], "cc": 1}
+                        if ccm:
+                            c_["ccm"] = ccm
+                        ops.append(c_)
+                    cases.append({"id": len(cases) + 1, "mode": "seq", "flavour": "reuse/" + name, "pool": pool, "ops": ops})
+    behs = ["P", "P", "P", "P", "S", "E", "A", "F"]
+    for _ in range(n):
+        pool = gen_pool(rng, rng.randint(2, 6), rng.random() < 0.7, behs, with_bad=False)
+        ops = gen_ops(rng, pool, rng.randint(4, 12), "cs", allow_bad=False, mp=0.4, rp=0.7)
+        cases.append({"id": len(cases) + 1, "mode": "seq", "flavour": "errors+reuse/random", "pool": pool, "ops": ops})
+
+
 MULTI_TARGETS = [("c", "I"), ("c", "O"), ("s", "I"), ("s", "O")]
 
 
@@ -250,7 +294,26 @@ def fmt(t):
 
 
 def rs(x):
-    return ("ok" + fmt(x[1])) if x[0] == "ok" else "err(%d)" % x[1]
+    if x[0] == "ok":
+        return "ok" + fmt(x[1])
+    if x[0] == "panic":
+        return "panic"
+    return "%s(%d)" % (x[0], x[1])          # err(n): a Go error; werr(n): error bytes, nil error
+
+
+METH_MARK = {"": None, "echo": None, "fail": 8001, "boom": 8002}
+
+
+def back(L, x):
+    """What the built-in handler of layer L hands back to L's innermost handler: errors travel
+    back through every layer, in the form that layer's interface has."""
+    if L == "CI" and x[0] == "werr":
+        return ("err", x[1])                # Client.Call: the codec decodes error bytes into an error
+    if L == "CO" and x[0] == "err":
+        return ("werr", x[1])               # Service.Handle: a failure goes over the wire as error bytes
+    if L == "SO" and x[0] == "panic":
+        return ("err", 78)                  # Service.Process recovers a panic of the invoke chain / method
+    return x
 
 
 def simulate(case, key, nocut=False, cuts=None):
@@ -276,28 +339,29 @@ def simulate(case, key, nocut=False, cuts=None):
             st[LO] = [h for h in st[LO] if key("O", h) not in ko]
         return "ok"
 
-    def call(toks, ctx=None, probe=False):
-        """ctx: None live, 9001 cancelled, 9002 deadline passed.  The property does not mention the
-        context: every installed handler runs, in order, whatever its state.  Only the transport
-        (not a plugin) gives up on a done context: it answers ctx.Err() instead of the response."""
+    def call(toks, ctx=None, meth=None, probe=False):
+        """ctx: None live, 9001 cancelled, 9002 deadline passed; meth: None echo, 8001 fail, 8002 boom.
+        The property does not mention the context: every installed handler runs, in order, whatever
+        its state.  Only the transport (not a plugin) gives up on a done context: it answers
+        ctx.Err() instead of the response.  Results AND errors travel back through every handler."""
         ev = []
 
         def shown(req, ctx):
-            return fmt(([ctx] if ctx else []) + req)
+            return fmt(([ctx] if ctx else []) + ([meth] if meth else []) + req)
 
         def level(li, req, ctx):
             if li == 4:
                 ev.append("*" + shown(req, ctx))
-                return ("ok", req + [99])
-            if li == 2 and ctx and not nocut:
-                if cuts is not None:
-                    cuts.add(len(outs))
-                return ("err", ctx)          # Client.Transport -> transport: select on ctx.Done()
+                return ("ok", req + [99]) if meth is None else ("err", 77) if meth == 8001 else ("panic",)
             return run(LAYERS[li], list(st[LAYERS[li]]), 0, li, req, ctx)   # the list installed NOW
 
         def run(L, chain, pos, li, req, ctx):
             if pos == len(chain):
-                return level(li + 1, req, ctx)
+                if L == "CO" and ctx and not nocut:
+                    if cuts is not None:
+                        cuts.add(len(outs))
+                    return ("err", ctx)      # Client.Transport -> transport: select on ctx.Done()
+                return back(L, level(li + 1, req, ctx))
             h = chain[pos]
             e = pool[h]
             hid = h + 1
@@ -316,13 +380,15 @@ def simulate(case, key, nocut=False, cuts=None):
                 if x[0] == "ok":
                     x = ("ok", x[1] + [hid + 100])
             elif beh == "F":
-                run(L, chain, pos + 1, li, req, ctx)
-                x = ("err", hid)
+                x = run(L, chain, pos + 1, li, req, ctx)
+                if x[0] != "panic":
+                    x = ("err", hid)
             elif beh == "K":
                 x = run(L, chain, pos + 1, li, req, ctx or 9001)   # next gets a cancelled context
             else:
                 x = run(L, chain, pos + 1, li, req, ctx)
-            ev.append("-" + lab + "=" + rs(x))
+            if x[0] != "panic":              # a panic unwinds through the handler: nothing recorded
+                ev.append("-" + lab + "=" + rs(x))
             return x
 
         x = level(0, list(toks), ctx)
@@ -331,7 +397,7 @@ def simulate(case, key, nocut=False, cuts=None):
     outs = []
     for op in case.get("ops", ()):
         if op["op"] == "C":
-            t, r = call(op["toks"], CTX_MARK.get(op.get("ctx") or ""))
+            t, r = call(op["toks"], CTX_MARK.get(op.get("ctx") or ""), METH_MARK.get(op.get("m") or ""))
             outs.append("call:" + t + "=>" + r)
         else:
             outs.append(apply(op))
@@ -364,7 +430,8 @@ def model_line(case, obs, mode="SEQ", ops=None):
     parts += ["O", str(len(ops))]
     for op in ops:
         if op["op"] == "C":
-            toks = ([CTX_MARK[op["ctx"]]] if op.get("ctx") else []) + list(op["toks"])
+            toks = (([CTX_MARK[op["ctx"]]] if op.get("ctx") else []) +
+                    ([METH_MARK[op["m"]]] if METH_MARK.get(op.get("m") or "") else []) + list(op["toks"]))
             parts += ["C", str(len(toks))] + [str(t) for t in toks]
         else:
             parts += mop(op)
@@ -435,7 +502,8 @@ def first_diff(a_outs, a_final, b_outs, b_final):
 def describe(case):
     def o(op):
         if op["op"] == "C":
-            return "Call%s%s" % (fmt(op["toks"]), {"cancel": "[ctx cancelled]", "deadline": "[ctx deadline passed]"}.get(op.get("ctx") or "", ""))
+            return "%s%s%s%s" % ({"fail": "CallFail", "boom": "CallBoom"}.get(op.get("m") or "", "Call"), fmt(op["toks"]),
+                                 "[reused context %d%s]" % (op["cc"], "/" + op["ccm"] if op.get("ccm") else "") if op.get("cc") else "", {"cancel": "[ctx cancelled]", "deadline": "[ctx deadline passed]"}.get(op.get("ctx") or "", ""))
         return "%s.%s(%s)" % ("client" if op["node"] == "c" else "service",
                               "Use" if op["op"] == "U" else "Unuse", ",".join("h%d" % (i + 1) for i in op["ix"]))
     pool = ",".join("h%d:%s%s" % (i + 1, e["kind"], "" if e.get("beh", "P") == "P" else "/" + e["beh"])
@@ -843,13 +911,14 @@ def run(ctx):
     gen_random(ctx, cases, 1500 if quick else 30000, "random/any-shape/behaviours+in-flight", False, beh_all, True)
     gen_random(ctx, cases, 1000 if quick else 20000, "random/any-shape/pass-through", False, ["P"], False)
     gen_ctx(ctx, cases, 1500 if quick else 30000)
+    gen_errors_and_reuse(ctx, cases, 1500 if quick else 30000)
     lap("generate")
     nk, no, nc = check_seq(ctx, cases)
     lap("sequential")
     conc = gen_conc(ctx, 40 if quick else 400)
     check_conc(ctx, conc, race=False)
     lap("concurrent")
-    check_multi(ctx, gen_multi(ctx, 12 if quick else 48, BALLAST))
+    check_multi(ctx, gen_multi(ctx, 8 if quick else 48, BALLAST))
     lap("multi-mutator")
     if not quick:
         try:
@@ -862,11 +931,13 @@ def run(ctx):
     ctx.note("phase_seconds", phases)
     ctx.note("exhaustive", True)
     ctx.note("exhaustive_cases", n_exh)
-    ctx.note("rule", "exhaustive: every sequence of single-handler Use/Unuse of length 0..%d over a pool of 4, followed by "
+    ctx.note("rule", "exhaustive: every sequence of single-handler Use/Unuse of length 0..%d (quick: 0..4 for four of the flavours) over a pool of 4, followed by "
              "a call and an all-pass probe of the installed chains (thorough: length 0..6 for five of them), for %d pool flavours (client invoke / client IO / "
              "service, distinct functions, closures of one literal, method values, two-sided and one-sided struct "
              "plugins); seeded random histories (multi-argument Use/Unuse on client and service, invalid values, "
              "short-circuit / alter / error behaviours, Use/Unuse issued by handlers while a call is inside them); "
+             "calls of a method that fails or panics (what every handler sees coming back, on both sides); one "
+             "ClientContext / context.Context reused across calls with Use/Unuse in between; "
              "calls with an already cancelled / expired context and handlers that cancel the context for next; "
              "concurrent mutators vs callers; 2-4 simultaneous mutators on one manager over %d ballast handlers, "
              "final chain checked after each round. non-trivial = some call ran >= 2 handlers or >= 2 handlers stayed installed; "
